@@ -5,29 +5,42 @@ Require Import AvraV.Model.Base AvraV.Model.Ast AvraV.Model.Device AvraV.Model.E
 Require Import AvraV.Gen.OpTable.
 Open Scope N_scope.
 
-(** fuel handed to Expr::run by the operand conversions; callers pass the build's fuel *)
-Section WithCtx.
-Variable fuel : nat.
-Variable c : ctx.
+(** What the accessors of InstructionOps ([get_r8], [get_expr] followed by evaluation, [get_index])
+    return for one operand.  The Rust code calls them on demand; being pure, the model computes
+    the three answers of every operand once ([view_of]) and lets [process_v] read the one the
+    mnemonic asks for - the same values, and it makes "the encoder depends on an operand only
+    through what the accessors return" true by construction. *)
+Inductive vidx := VNone (r : reg16) | VPostInc (r : reg16) | VPreDec (r : reg16) | VDisp (r : reg16) (q : res Z).
+Record view := { v_r8 : res N; v_val : res Z; v_idx : res vidx }.
 
-Definition get_r8 (a : iop) : res N :=
+Definition get_r8 (c : ctx) (a : iop) : res N :=
   match a with
   | OR8 n => Ok n
   | OE (EIdent name) => match get_def c name with Some r => Ok r | None => Err None end
   | _ => Err None
   end.
-Definition get_expr_op (a : iop) : res expr := match a with OE e => Ok e | _ => Err None end.
-Definition get_index (a : iop) : res index := match a with OIndex i => Ok i | _ => Err None end.
+Definition get_val (fuel : nat) (c : ctx) (a : iop) : res Z :=
+  match a with OE e => run fuel c e | _ => Err None end.
+Definition get_index (fuel : nat) (c : ctx) (a : iop) : res vidx :=
+  match a with
+  | OIndex (INone r) => Ok (VNone r)
+  | OIndex (IPostInc r) => Ok (VPostInc r)
+  | OIndex (IPreDec r) => Ok (VPreDec r)
+  | OIndex (IPostIncE r e) => Ok (VDisp r (run fuel c e))
+  | _ => Err None
+  end.
+Definition view_of (fuel : nat) (c : ctx) (a : iop) : view :=
+  {| v_r8 := get_r8 c a; v_val := get_val fuel c a; v_idx := get_index fuel c a |}.
 
-Definition arg (args : list iop) (i : nat) : res iop :=
+Definition arg (args : list view) (i : nat) : res view :=
   match nth_error args i with Some a => Ok a | None => Panic end.
 
-Definition run_e (e : expr) : res Z := run fuel c e.
-Definition get_byte (e : expr) : res N := do v <- run_e e; do b <- byte_of v; Ok (Z.to_N b).
-Definition get_bit_index (e : expr) : res N := do v <- run_e e; do b <- bit_of v; Ok (Z.to_N b).
+(** get_byte / get_bit_index on an already evaluated operand *)
+Definition get_byte (v : res Z) : res N := do x <- v; do b <- byte_of x; Ok (Z.to_N b).
+Definition get_bit_index (v : res Z) : res N := do x <- v; do b <- bit_of x; Ok (Z.to_N b).
 (** [get_byte(..)? as i8] followed by [if k < 0 || k > max] *)
-Definition small_field (max : N) (e : expr) : res N :=
-  do b <- get_byte e; if (127 <? b) || (max <? b) then Err None else Ok b.
+Definition small_field (max : N) (v : res Z) : res N :=
+  do b <- get_byte v; if (127 <? b) || (max <? b) then Err None else Ok b.
 
 (** Operation::operand_counts; None for macro calls *)
 Definition operand_counts (o : operation) : option (list nat) :=
@@ -51,8 +64,7 @@ Definition u16 (z : Z) : N := Z.to_N (z mod 65536).
 Definition rel_of (k : Z) (pc : N) : res Z :=
   let r := (k - (Z.of_N pc + 1))%Z in if in_i64 r then Ok r else Err None.
 
-Definition process (op : operation) (args : list iop) (pc : N) : res (list N) :=
-  let avr8l := is_avr8l (dev c) in
+Definition process_v (avr8l : bool) (op : operation) (args : list view) (pc : N) : res (list N) :=
   let base := snd (op_info avr8l op) in
   do _ <- match operand_counts op with
           | Some l => if existsb (Nat.eqb (length args)) l then Ok tt else Err None
@@ -61,75 +73,76 @@ Definition process (op : operation) (args : list iop) (pc : N) : res (list N) :=
   do r <-
     match op with
     | OAdd | OAdc | OSub | OSbc | OAnd | OOr | OEor | OCpse | OCp | OCpc | OMov | OMul =>
-        do a0 <- arg args 0; do d <- get_r8 a0;
-        do a1 <- arg args 1; do r <- get_r8 a1;
+        do a0 <- arg args 0; do d <- v_r8 a0;
+        do a1 <- arg args 1; do r <- v_r8 a1;
         Ok (N.lor (N.lor base (N.shiftl d 4)) (N.lor (N.shiftl (N.land r 16) 5) (N.land r 15)), None)
     | OAdiw | OSbiw =>
-        do a0 <- arg args 0; do d <- get_r8 a0;
+        do a0 <- arg args 0; do d <- v_r8 a0;
         if negb ((d =? 24) || (d =? 26) || (d =? 28) || (d =? 30)) then Err None else
-        do a1 <- arg args 1; do e <- get_expr_op a1; do k <- small_field 63 e;
+        do a1 <- arg args 1; do k <- small_field 63 (v_val a1);
         Ok (N.lor (N.lor base (N.shiftl ((d - 24) / 2) 4)) (N.lor (N.shiftl (N.land k 48) 2) (N.land k 15)), None)
     | OSubi | OSbci | OAndi | OOri | OSbr | OCbr | OCpi | OLdi =>
-        do a0 <- arg args 0; do d <- get_r8 a0;
+        do a0 <- arg args 0; do d <- v_r8 a0;
         if d <? 16 then Err None else
-        do a1 <- arg args 1; do e <- get_expr_op a1; do k0 <- get_byte e;
+        do a1 <- arg args 1; do k0 <- get_byte (v_val a1);
         let k := match op with OCbr => 255 - k0 | _ => k0 end in
         Ok (N.lor (N.lor base (N.shiftl (N.land d 15) 4)) (N.lor (N.shiftl (N.land k 240) 4) (N.land k 15)), None)
     | OCom | ONeg | OInc | ODec | OPush | OPop | OLsr | ORor | OAsr | OSwap =>
-        do a0 <- arg args 0; do r <- get_r8 a0;
+        do a0 <- arg args 0; do r <- v_r8 a0;
         Ok (N.lor base (N.shiftl r 4), None)
     | OTst | OClr | OLsl | ORol =>
-        do a0 <- arg args 0; do r <- get_r8 a0;
+        do a0 <- arg args 0; do r <- v_r8 a0;
         Ok (N.lor (N.lor base (N.shiftl r 4)) (N.lor (N.shiftl (N.land r 16) 5) (N.land r 15)), None)
     | OSer =>
-        do a0 <- arg args 0; do r <- get_r8 a0;
+        do a0 <- arg args 0; do r <- v_r8 a0;
         if r <? 16 then Err None else Ok (N.lor base (N.shiftl (N.land r 15) 4), None)
     | OMuls =>
-        do a0 <- arg args 0; do d <- get_r8 a0;
+        do a0 <- arg args 0; do d <- v_r8 a0;
         if d <? 16 then Err None else
-        do a1 <- arg args 1; do r <- get_r8 a1;
+        do a1 <- arg args 1; do r <- v_r8 a1;
         if r <? 16 then Err None else
         Ok (N.lor (N.lor base (N.shiftl (N.land d 15) 4)) (N.land r 15), None)
     | OMulsu | OFmul | OFmuls | OFmulsu =>
-        do a0 <- arg args 0; do d <- get_r8 a0;
+        do a0 <- arg args 0; do d <- v_r8 a0;
         if (d <? 16) || (23 <? d) then Err None else
-        do a1 <- arg args 1; do r <- get_r8 a1;
+        do a1 <- arg args 1; do r <- v_r8 a1;
         if (r <? 16) || (23 <? r) then Err None else
         Ok (N.lor (N.lor base (N.shiftl (N.land d 7) 4)) (N.land r 7), None)
     | ORjmp | ORcall =>
-        do a0 <- arg args 0; do e <- get_expr_op a0; do k <- run_e e;
+        do a0 <- arg args 0; do k <- v_val a0;
         do rel <- rel_of k pc;
         if (rel <? -2048)%Z || (2047 <? rel)%Z then Err None else
         Ok (N.lor base (N.land (u16 rel) 4095), None)
     | OJmp | OCall =>
-        do a0 <- arg args 0; do e <- get_expr_op a0; do k <- run_e e;
+        do a0 <- arg args 0; do k <- v_val a0;
         if (k <? 0)%Z || (4194303 <? k)%Z then Err None else
-        let k := Z.to_N k in
-        Ok (N.lor base (N.lor (N.shiftr (N.land k 4063232) 13) (N.shiftr (N.land k 65536) 16)), Some (N.land k 65535))
+        (* ((k & 0x3e0000) >> 13 | (k & 0x010000) >> 16, k & 0xffff), written on the two halves of k *)
+        let hi := Z.to_N (k / 65536) in
+        Ok (N.lor base (N.lor (N.shiftl (N.land hi 62) 3) (N.land hi 1)), Some (Z.to_N (k mod 65536)))
     | OBr b =>
         do si <- match b with
-                 | BrBs | BrBc => do a0 <- arg args 0; do e <- get_expr_op a0; do s <- get_bit_index e; Ok (s, 1%nat)
+                 | BrBs | BrBc => do a0 <- arg args 0; do s <- get_bit_index (v_val a0); Ok (s, 1%nat)
                  | _ => Ok (0, 0%nat)
                  end;
         let '(sbits, idx) := si in
-        do a <- arg args idx; do e <- get_expr_op a; do k <- run_e e;
+        do a <- arg args idx; do k <- v_val a;
         do rel <- rel_of k pc;
         if (rel <? -64)%Z || (63 <? rel)%Z then Err None else
         Ok (N.lor (N.lor (N.lor base sbits) (br_number b)) (N.shiftl (N.land (u16 rel) 127) 3), None)
     | OMovw =>
-        do a0 <- arg args 0; do d <- get_r8 a0;
+        do a0 <- arg args 0; do d <- v_r8 a0;
         if negb (d mod 2 =? 0) then Err None else
-        do a1 <- arg args 1; do r <- get_r8 a1;
+        do a1 <- arg args 1; do r <- v_r8 a1;
         if negb (r mod 2 =? 0) then Err None else
         Ok (N.lor (N.lor base (N.shiftl (d / 2) 4)) (r / 2), None)
     | OLds | OSts =>
         do a0 <- arg args 0; do a1 <- arg args 1;
         do rk <- match op with
-                 | OLds => do r <- get_r8 a0; do e <- get_expr_op a1; Ok (r, e)
-                 | _ => do r <- get_r8 a1; do e <- get_expr_op a0; Ok (r, e)
+                 | OLds => do r <- v_r8 a0; Ok (r, v_val a1)
+                 | _ => do r <- v_r8 a1; Ok (r, v_val a0)
                  end;
         let '(r, e) := rk in
-        do k <- run_e e;
+        do k <- e;
         if avr8l then
           if r <? 16 then Err None else
           if (k <? 64)%Z || (191 <? k)%Z then Err None else
@@ -142,15 +155,15 @@ Definition process (op : operation) (args : list iop) (pc : N) : res (list N) :=
     | OLd | OSt | OLdd | OStd =>
         do a0 <- arg args 0; do a1 <- arg args 1;
         do ri <- match op with
-                 | OLd | OLdd => do r <- get_r8 a0; do i <- get_index a1; Ok (r, i)
-                 | _ => do r <- get_r8 a1; do i <- get_index a0; Ok (r, i)
+                 | OLd | OLdd => do r <- v_r8 a0; do i <- v_idx a1; Ok (r, i)
+                 | _ => do r <- v_r8 a1; do i <- v_idx a0; Ok (r, i)
                  end;
         let '(r, i) := ri in
         do f <- match i with
-                | INone r16 => Ok (N.lor (match r16 with RX => 4096 | _ => 0 end) (reg_code r16))
-                | IPostInc r16 => Ok (N.lor (N.lor 1 4096) (reg_code r16))
-                | IPreDec r16 => Ok (N.lor (N.lor 2 4096) (reg_code r16))
-                | IPostIncE r16 e =>
+                | VNone r16 => Ok (N.lor (match r16 with RX => 4096 | _ => 0 end) (reg_code r16))
+                | VPostInc r16 => Ok (N.lor (N.lor 1 4096) (reg_code r16))
+                | VPreDec r16 => Ok (N.lor (N.lor 2 4096) (reg_code r16))
+                | VDisp r16 e =>
                     match r16 with
                     | RX => Err None
                     | _ => do k <- small_field 63 e;
@@ -163,37 +176,40 @@ Definition process (op : operation) (args : list iop) (pc : N) : res (list N) :=
         match args with
         | [] => Ok (match op with OLpm => 38344 | _ => 38360 end, None)
         | _ =>
-          do a0 <- arg args 0; do r <- get_r8 a0;
-          do a1 <- arg args 1; do i <- get_index a1;
-          do f <- match i with INone RZ => Ok 4 | IPostInc RZ => Ok 5 | _ => Err None end;
+          do a0 <- arg args 0; do r <- v_r8 a0;
+          do a1 <- arg args 1; do i <- v_idx a1;
+          do f <- match i with VNone RZ => Ok 4 | VPostInc RZ => Ok 5 | _ => Err None end;
           Ok (N.lor (N.lor (N.lor base (N.shiftl r 4)) f) (match op with OElpm => 2 | _ => 0 end), None)
         end
     | OIn | OOut =>
         do a0 <- arg args 0; do a1 <- arg args 1;
         do rk <- match op with
-                 | OIn => do r <- get_r8 a0; do e <- get_expr_op a1; Ok (r, e)
-                 | _ => do r <- get_r8 a1; do e <- get_expr_op a0; Ok (r, e)
+                 | OIn => do r <- v_r8 a0; Ok (r, v_val a1)
+                 | _ => do r <- v_r8 a1; Ok (r, v_val a0)
                  end;
         let '(r, e) := rk in
         do k <- small_field 63 e;
         Ok (N.lor (N.lor base (N.shiftl r 4)) (N.lor (N.shiftl (N.land k 48) 5) (N.land k 15)), None)
     | OSbrc | OSbrs | OBst | OBld =>
-        do a0 <- arg args 0; do r <- get_r8 a0;
-        do a1 <- arg args 1; do e <- get_expr_op a1; do b <- get_bit_index e;
+        do a0 <- arg args 0; do r <- v_r8 a0;
+        do a1 <- arg args 1; do b <- get_bit_index (v_val a1);
         Ok (N.lor (N.lor base (N.shiftl r 4)) b, None)
     | OSbi | OCbi | OSbis | OSbic =>
-        do a0 <- arg args 0; do e0 <- get_expr_op a0; do k <- small_field 31 e0;
-        do a1 <- arg args 1; do e1 <- get_expr_op a1; do b <- get_bit_index e1;
+        do a0 <- arg args 0; do k <- small_field 31 (v_val a0);
+        do a1 <- arg args 1; do b <- get_bit_index (v_val a1);
         Ok (N.lor (N.lor base (N.shiftl k 3)) b, None)
     | OBset | OBclr =>
-        do a0 <- arg args 0; do e <- get_expr_op a0; do k <- get_bit_index e;
+        do a0 <- arg args 0; do k <- get_bit_index (v_val a0);
         Ok (N.lor base (N.shiftl k 4), None)
     | OSe f | OCl f => Ok (N.lor base (N.shiftl (flag_number f) 4), None)
     | _ => Ok (base, None)
     end;
   let '(w, w2) := r in
   Ok ([w mod 256; w / 256] ++ match w2 with Some x => [x mod 256; x / 256] | None => [] end)%list.
-End WithCtx.
+
+(** instruction::process *)
+Definition process (fuel : nat) (c : ctx) (op : operation) (args : list iop) (pc : N) : res (list N) :=
+  process_v (is_avr8l (dev c)) op (map (view_of fuel c) args) pc.
 
 (** document::operation: the identifier is lower-cased and matched in full against the mnemonic
     table (regenerated from the code); anything else is a macro call *)
